@@ -103,6 +103,8 @@ type RunResult struct {
 
 type e1 struct {
 	p                *Program
+	stmtFiredBefore  int64
+	prevTomb         bool // the step being judged started from a tombstone
 	w                *World
 	w2               *World // optional second bucket
 	env              Env
@@ -380,6 +382,8 @@ func (e *e1) doOp(op *Op) *Violation {
 		return e.doQuery(op)
 	case "RecreateColl":
 		return e.doRecreateColl(op)
+	case "EnsureColl":
+		return e.doEnsureColl(op)
 	case "HLCBurst":
 		return e.doHLCBurst(op)
 	}
@@ -474,7 +478,9 @@ func (e *e1) doOp(op *Op) *Violation {
 	}
 	// live feed events, then read-back through every observer: both oracles run, and the one that
 	// belongs to the property under check is the one reported
+	e.prevTomb = d.Exists && !d.HasBody
 	vLive := e.checkLive(op, out)
+	e.prevTomb = false
 	vRead := e.readBack(op, out.Family, r.Err != "")
 	return e.pick(vLive, vRead)
 }
@@ -602,6 +608,10 @@ func (e *e1) checkFresh(op *Op, out StepOut, fresh []ObsEvent, mine bool, where 
 	}
 	e.liveByCas[fmt.Sprintf("%d/%s/%d", op.Coll, fresh[0].Key, fresh[0].Cas)] = fresh[0]
 	if what, tags := compareEvent(fresh[0], out.Event, "C08"); what != "" {
+		if e.prevTomb && out.Event.HasBody && (strings.HasPrefix(what, "xattrs") || strings.HasPrefix(what, "datatype")) {
+			// a write that gave a tombstone a body: the live-feed observer must see none of its xattrs
+			tags = append(tags, "C05")
+		}
 		return e.violate(tags, "event."+strings.SplitN(what, " ", 2)[0], "step %d %s: live event %s differs from the mutation: %s", e.step, op, fresh[0], what)
 	}
 	return nil
@@ -1052,10 +1062,10 @@ func (e *e1) doClock(op *Op) *Violation {
 // a document may be tombstoned only once its deadline has passed, and must be within a few
 // seconds after it, each time with one deletion event on the collection's feed.
 func (e *e1) doAdvance(op *Op) *Violation {
-	time.Sleep(time.Duration(op.Dur) * time.Second)
+	time.Sleep(time.Duration(op.Dur)*time.Second + time.Duration(op.Amt)*time.Millisecond)
 	synctest.Wait()
 	now := nowUnix()
-	e.logf("#%d Advance(%ds) -> now=%d", e.step, op.Dur, now)
+	e.logf("#%d Advance(%ds %dms) -> now=%d", e.step, op.Dur, op.Amt, now)
 	const grace = 5
 	type cev struct {
 		ci int
@@ -1230,6 +1240,43 @@ func (e *e1) doRecreateColl(op *Op) *Violation {
 	return nil
 }
 
+// doEnsureColl asks for a collection that already exists to be created (what a caller does that
+// "ensures" its collections at start). Whether that is refused or accepted is not specified; either
+// way the name must go on addressing the same collection, with everything in it, and no other
+// collection may notice.
+func (e *e1) doEnsureColl(op *Op) *Violation {
+	if op.Coll >= e.p.NColl {
+		return nil
+	}
+	b := e.w.Handles[0]
+	name := collNames[op.Coll]
+	cerr := b.CreateDataStore(context.Background(), name)
+	e.logf("#%d EnsureColl(c%d) -> %v", e.step, op.Coll, cerr)
+	var ds sgbucket.DataStore
+	if op.Coll == 0 {
+		ds = b.DefaultDataStore()
+	} else {
+		var err error
+		if ds, err = b.NamedDataStore(name); err != nil {
+			return e.violate([]string{"C11"}, "ensure.error", "step %d: NamedDataStore(%s) failed after CreateDataStore of the existing collection: %v", e.step, name, err)
+		}
+	}
+	if ds == nil {
+		return e.violate([]string{"C11"}, "ensure.error", "step %d: the collection %s cannot be obtained any more after CreateDataStore of the existing collection (%v)", e.step, name, cerr)
+	}
+	e.w.Colls[0][op.Coll] = ds
+	synctest.Wait()
+	for ci := range e.docs {
+		for _, k := range e.allKeys() {
+			if why, _, what := e.readKey(e.w.Colls[0][ci], b, e.docs[ci], ci, k); why != "" {
+				return e.violate([]string{"C11"}, "ensure."+what, "step %d: after CreateDataStore(%s) of the existing collection (result: %v), collection %d reads differently: %s", e.step, name, cerr, ci, why)
+			}
+		}
+	}
+	e.probe("collection.ensured")
+	return nil
+}
+
 // armFaults plants the faults planned for the current step; returns the fired-counters before.
 func (e *e1) armFaults() [5]int64 {
 	var before [5]int64
@@ -1239,6 +1286,12 @@ func (e *e1) armFaults() [5]int64 {
 		}
 	}
 	e.commitBusyBefore = e.sched.CommitBusyFired
+	e.stmtFiredBefore = DisarmStmtFault()
+	for _, f := range e.p.Faults {
+		if f.AtOp == e.step && f.Kind == 6 {
+			ArmStmtFault(1 + f.Offset)
+		}
+	}
 	if !e.p.OnDisk {
 		return before
 	}
@@ -1269,6 +1322,13 @@ func (e *e1) faultFired(before [5]int64) string {
 		e.res.Stats.Faults["busy-before-commit(retry)"] += n
 		e.probe("fault.transaction-retried")
 	}
+	if n := DisarmStmtFault() - e.stmtFiredBefore; n > 0 {
+		if e.res.Stats.Faults == nil {
+			e.res.Stats.Faults = map[string]int{}
+		}
+		e.res.Stats.Faults["statement-failed"] += int(n)
+		return "statement-failed"
+	}
 	if !e.p.OnDisk {
 		return ""
 	}
@@ -1291,7 +1351,7 @@ func ioFailure(r *Res) bool {
 	}
 	if r.Err == EOther || r.Err == EClosed {
 		t := strings.ToLower(r.ErrText)
-		return strings.Contains(t, "disk i/o") || strings.Contains(t, "disk is full") || strings.Contains(t, "database is locked") || strings.Contains(t, "sqlite")
+		return strings.Contains(t, "disk i/o") || strings.Contains(t, "disk is full") || strings.Contains(t, "database is locked") || strings.Contains(t, "sqlite") || strings.Contains(t, "not authorized") || strings.Contains(t, "is prohibited")
 	}
 	return false
 }
